@@ -161,6 +161,10 @@ pub trait Prop: Sync {
     fn exhaustive(&self, _tier: Tier) -> bool {
         false
     }
+    /// number of leading work items that are enumerated (catalogue) rather than sampled
+    fn n_enumerated_items(&self, _tier: Tier) -> u64 {
+        0
+    }
 }
 
 /// `Prop::check` with a safety net: the oracles call into the real code *after* the run as well
@@ -231,6 +235,18 @@ pub fn run_campaign(prop: &dyn Prop, tier: Tier, seed: u64, workers: usize) -> C
                 }
                 let scs = prop.expand(i, tier, seed);
                 let mut cov = Cov::default();
+                if i == 0 {
+                    if let Some(first) = scs.first() {
+                        // one complete, replayable case (exactly what a replay file stores)
+                        cov.sample(serde_json::json!({"complete_scenario_example": first}));
+                    }
+                }
+                if i < prop.n_enumerated_items(tier) {
+                    *cov.exhaustive_spaces.entry("enumerated_bases".into()).or_insert(0) += 1;
+                    *cov.exhaustive_spaces.entry("enumerated_cases".into()).or_insert(0) += scs.len() as u64;
+                } else {
+                    *cov.exhaustive_spaces.entry("sampled_cases".into()).or_insert(0) += scs.len() as u64;
+                }
                 let mut found = Vec::new();
                 let mut nviol = 0u64;
                 for (j, sc) in scs.iter().enumerate() {
